@@ -6,6 +6,16 @@ ALL = ["C%02d" % i for i in range(1, 21)]
 
 # id -> dict(level, text, note, technique, design_ref, engine)
 CHECKS = {
+ "C04": dict(level="exploration", engine="gridx",
+   text="All 41 models x cells N=1..4 x parameter-set and input-block counts in {1, N, coprime below N} x T x output arrays exact or one larger in every dimension x Go- or C-backed arrays with canaries x model-initialised or caller-filled distinct state rows; per-cell table lengths differ for the dimensioned models. Every cell of the vectorised run is compared bit-for-bit with a fresh single-cell run of its parameter column, input block and state row; inputs/parameters unchanged; slack and canaries untouched.",
+   note="Exhaustive over the stated grid. Writes that store an equal value are not observable without the access log. Two recorded findings: InitialiseStates for GR4J/Lag with state lengths growing across cells.",
+   technique="bounded-exhaustive enumeration of configurations with a differential oracle (N independent single-cell runs)",
+   design_ref="2/C04"),
+ "C14": dict(level="model_checking", engine="seqx",
+   text="Explicit enumeration of run histories on the real model objects: for 82 probes (41 models x 2 configurations) every history of up to 2 (thorough 3) earlier runs over a 10-operation alphabet (same object same/other configuration, fresh object, a model of each package) followed by the probe, compared bit-for-bit with the probe run first in a fresh process; plus every truncation point and every constant replacement tail for causality.",
+   note="History depth and alphabet as stated; the fresh-process baseline is itself computed twice in separate processes.",
+   technique="explicit-state search over operation histories (depth-bounded, all sequences) on the real objects with a fresh-process differential oracle",
+   design_ref="2/C14"),
  "C18": dict(level="exploration", engine="gridx",
    text="FindRoot: 33 test functions (monotone incl. flat segments, kinks, steep ramp, routing-residual shapes; non-monotone with a bracketed sign change) x derivative kind x initial guess x tolerance x convergence limit x iteration budget, every combination, every evaluation point logged; Piecewise: every strictly increasing knot vector of length 2..5 from a 7-value pool x every y assignment from a 6-value pool x queries at knots, interior points, the floats adjacent to knots, outside, NaN, +-Inf, on contiguous and strided table views.",
    note="Exhaustive over the stated families and lattices; the 'budget suffices for halving' clause is decided with a slope bound (sound), not by running a second bisection.",
@@ -97,6 +107,7 @@ def main():
 NA = {}
 ENGINES = [
   {"name": "vf", "path": "vf/", "serves_properties": ALL, "kind_free_text": "supervisor + crash-tolerant worker subprocesses for bounded-exhaustive enumeration; evidence, known-findings, replay"},
+  {"name": "seqx", "path": "checks/c14, checks/seqx", "serves_properties": ["C01","C02","C03","C08","C14","C17"], "kind_free_text": "explicit-state search over operation sequences of a sequential API against a reference model / differential oracle"},
   {"name": "gridx", "path": "checks/", "serves_properties": ["C04","C06","C10","C11","C12","C13","C15","C16","C18","C19","C20"], "kind_free_text": "bounded-exhaustive enumeration of parameter grids x all input words over finite alphabets through the real model objects"},
 ]
 if __name__ == "__main__":
